@@ -530,6 +530,45 @@ def check_iterstate(ck, prog):
           key="ITERSTATE:empty-stream-method")
 
 
+def check_total_limits(ck, prog):
+    """Aggregate members of lzma_index (uncompressed_size, ...) are sums over all Streams and must stay valid lzma_vli
+    values.  Sibling rule: when one function guards `i->m += x` with a comparison of `i->m (+ x)` against LZMA_VLI_MAX, every
+    other `+=` site of the same member needs such a guard of its own, too -- a guard on a per-Stream base is not one.
+    (lzma_index_cat() checks the total uncompressed size, lzma_index_append() must as well: otherwise cat + append builds an
+    index whose total exceeds LZMA_VLI_MAX, the next overflow test wraps in uint64_t and locate/encode break.)"""
+    ck.rule("C13-TOTALS", "every += site of an lzma_index aggregate that is limit-checked somewhere is limit-checked itself")
+    VM = (1 << 63) - 1
+    sites = {}
+    for f in prog.fns_in("index.c"):
+        if not f.blocks:
+            continue
+        doms = cfg.dominators(f)
+        for b, i, e in f.iter_elems():
+            for (l, r, op, n) in ex.writes(e):
+                fk = ex.field_key(l)
+                if op == "+=" and fk and fk[0] and fk[0].startswith("lzma_index_s"):
+                    own = [d for d in doms.get(b.id, ()) if f.blocks[d].term and "cond" in f.blocks[d].term and
+                           any(ex.const_val(y) == VM for y in ex.walk(f.blocks[d].term["cond"])) and
+                           any(ex.field_key(y) == fk for y in ex.walk(f.blocks[d].term["cond"]) if y.get("k") == "mem")]
+                    sites.setdefault(fk, []).append((f, n, bool(own)))
+    n_ = 0
+    for fk, lst in sorted(sites.items()):
+        if not any(g for (f, n, g) in lst):
+            continue
+        for (f, n, g) in lst:
+            n_ += 1
+            ck.saw_function(f)
+            ck.ob("C13-TOTALS", "%s:%s" % (f.name, fk[1]), g, common.where(f, n),
+                  "%s: `%s` is behind a comparison of %s with LZMA_VLI_MAX" % (f.name, ex.show(n)[:50], fk[1]) if g else
+                  "%s(): `%s` (line %s) is not guarded by a comparison of the index-wide %s with LZMA_VLI_MAX although %s guards "
+                  "its own update of that member: the total over all Streams can exceed LZMA_VLI_MAX (cat of an empty index + "
+                  "append), after which the overflow tests wrap and the index misreports offsets" % (
+                      f.name, ex.show(n)[:50], ex.line(n), fk[1], ", ".join(sorted({x[0].name for x in lst if x[2]}))),
+                  key="TOTALS:%s:%s" % (f.name, fk[1]))
+    if n_ < 2:
+        raise AnalysisBroken("C13-TOTALS: no aggregate with a limit-checked += site found (uncompressed_size expected)")
+
+
 def check_seek_state(ck, prog):
     """file_info_decode() is re-entered after LZMA_SEEK_NEEDED in whatever state coder->sequence names.  A state body that
     moves the file position bookkeeping (compound update of a coder member) must therefore advance coder->sequence
@@ -590,6 +629,7 @@ def run(ck):
     check_treewalk(ck, prog)
     check_curpos(ck, prog)
     check_iterstate(ck, prog)
+    check_total_limits(ck, prog)
     from . import reinit
     ck.rule("C13-APPLY", "an amount measured in this call (padding found, bytes used) is applied to the persistent "
                          "member it updates on every way out that the caller continues from")
